@@ -16,6 +16,7 @@ import (
 	"path/filepath"
 	"reflect"
 	"regexp"
+	"slices"
 	"sort"
 	"strconv"
 	"strings"
@@ -115,6 +116,9 @@ type RootConfig struct {
 	Packages   map[string]*PackageConfig `koanf:"packages" yaml:"packages"`
 	koanf      *koanf.Koanf
 	configFile *pathlib.Path
+	// containers are recursive packages whose own directory holds no Go files
+	// but that have sub-packages: there is nothing to load for them.
+	containers map[string]struct{}
 }
 
 func NewRootConfig(
@@ -393,6 +397,12 @@ func (c *RootConfig) Initialize(ctx context.Context) error {
 		if err != nil {
 			return fmt.Errorf("discovering sub packages of %s: %w", recursivePackageName, err)
 		}
+		if len(subpkgs) > 0 && !slices.Contains(subpkgs, recursivePackageName) {
+			if c.containers == nil {
+				c.containers = map[string]struct{}{}
+			}
+			c.containers[recursivePackageName] = struct{}{}
+		}
 		parentPkgConfig := c.Packages[recursivePackageName]
 		for _, subpkg := range subpkgs {
 			excludeSubpkg, err := parentPkgConfig.Config.ShouldExcludeSubpkg(subpkg)
@@ -455,6 +465,9 @@ func (c *RootConfig) GetPackageConfig(ctx context.Context, pkgPath string) (*Pac
 func (c *RootConfig) GetPackages(ctx context.Context) ([]string, error) {
 	packages := []string{}
 	for key := range c.Packages {
+		if _, isContainer := c.containers[key]; isContainer {
+			continue
+		}
 		packages = append(packages, key)
 	}
 	return packages, nil
